@@ -18,13 +18,25 @@ for d in sorted(glob.glob(os.path.join(S, '*/'))):
         first = open(np_).readline().strip().lstrip('#').strip()
         title = re.sub(r'^(C\d\d\s*/\s*)?m\d\s*[—:-]+\s*', '', first)
     title = (title or '').replace('|', '/')
-    r = res.get(sid, {})
-    det = sorted(k for k, v in r.items() if v['exit'] == 1)
-    miss = sorted(k for k, v in r.items() if v['exit'] == 0)
-    err = sorted(k for k, v in r.items() if v['exit'] not in (0, 1))
-    meta['detected_by'] = det
-    meta['not_detected_by'] = miss
-    meta['first_signature'] = {k: (r[k]['signatures'] or [''])[0] for k in det}
+    r = dict(res.get(sid, {}))
+    stale = r.pop('apply', None)
+    if meta.get('stale') or (stale and not any(v['exit'] in (0, 1) for v in r.values())):
+        # the code it patches was changed by a later repair in /repo (or the
+        # repair made it harmless): keep the verdict from when it was valid
+        meta.setdefault('stale', 'patch.diff no longer applies to /repo HEAD (or no longer demonstrates anything there) since a later fix: commit touched the same code; verdict below is from when it did')
+        det = [k for k in meta.get('detected_by', [])]
+        miss = [k for k in meta.get('not_detected_by', [])]
+        err = []
+        title_prefix = '[not re-based onto the current HEAD; verdict from when it applied] '
+    else:
+        title_prefix = ''
+        det = sorted(k for k, v in r.items() if v['exit'] == 1)
+        miss = sorted(k for k, v in r.items() if v['exit'] == 0)
+        err = sorted(k for k, v in r.items() if v['exit'] not in (0, 1))
+        meta['detected_by'] = det
+        meta['not_detected_by'] = miss
+        meta['first_signature'] = {k: (r[k]['signatures'] or [''])[0] for k in det}
+    title = title_prefix + title
     if os.path.exists(mp):
         json.dump(meta, open(mp, 'w'), indent=1)
     prop = meta.get('property') or ''
